@@ -422,7 +422,7 @@ pub fn run(env: &Env) -> i32 {
         };
     }
     replay_saved(env, &mut rep, &exec);
-    let n = env.cases(8000, 300000);
+    let n = env.cases(60000, 600000);
     let r = run_cases(
         env,
         1,
